@@ -1,6 +1,6 @@
 // C06 (reextent clause) — the complete grid of (old extensions, new extensions) pairs in dimensionality D = 1..4 (RX_D), per-dimension index
 // extensions from a small menu (empty, sizes 1..3(5), shifted index bases), x every reextent form (lvalue reextent(x), reextent(x, fill), rvalue
-// reextent(x)) x three element types (int: trivially default constructible; Q: value-initialisation required; E: tracked lifetime + ledger allocator),
+// reextent(x)) x four element types (int: trivially default constructible; Q: user-provided default constructor, trivially copyable; E: tracked lifetime + ledger allocator; R: aggregate with an implicit non-trivial default constructor and an uninitialised scalar member, over the pre-filling ledger allocator),
 // plus chains old -> mid -> new (states reached from non-initial states) in low dimensionality.  Oracle per pair: extensions() equal the request, every
 // index tuple of the intersection keeps its value, every other element equals the fill value (or a value-initialised element for Q/E), same extents keep
 // the storage (no allocation, same data_elements()), the tracked registry is clean and nothing leaks.  Every batch runs in a forked child.
@@ -14,45 +14,20 @@ using namespace hm;
 using vm::idx;
 using instr::W;
 
-using Ext1 = std::pair<idx, idx>;          // [first, last)
-using Ext = std::vector<Ext1>;
-
-static std::vector<Ext1> menu1(bool thorough) {
-	switch(D) {
-		case 1: { std::vector<Ext1> r = {{0, 0}, {0, 1}, {0, 2}, {0, 3}, {0, 5}, {-1, 1}, {-1, 2}, {2, 4}, {1, 4}}; if(thorough) { r.push_back({0, 8}); r.push_back({3, 3}); r.push_back({-2, 5}); } return r; }
-		case 2: { std::vector<Ext1> r = {{0, 0}, {0, 1}, {0, 2}, {0, 3}, {-1, 1}, {1, 3}}; if(thorough) { r.push_back({0, 5}); r.push_back({2, 4}); } return r; }
-		case 3: { std::vector<Ext1> r = {{0, 0}, {0, 1}, {0, 2}, {0, 3}}; if(thorough) { r.push_back({1, 3}); } return r; }
-		default: { std::vector<Ext1> r = {{0, 1}, {0, 2}, {0, 3}}; if(thorough) { r.insert(r.begin(), {0, 0}); } return r; }
-	}
-}
-static std::vector<Ext> all_exts(bool thorough) {
-	auto m = menu1(thorough); std::vector<Ext> r{{}};
-	for(int j = 0; j < D; ++j) { std::vector<Ext> n; for(auto const& p : r) { for(auto e : m) { auto q = p; q.push_back(e); n.push_back(q); } } r = std::move(n); }
-	if(D == 4 && !thorough) { r.push_back({{0, 0}, {0, 0}, {0, 0}, {0, 0}}); r.push_back({{0, 2}, {0, 0}, {0, 2}, {0, 1}}); }
-	return r;
-}
-static std::string str(Ext const& e) { std::string r; for(auto p : e) { r += "[" + std::to_string(p.first) + "," + std::to_string(p.second) + ")"; } return r; }
-static auto X(Ext const& e) { std::vector<idx> f, s; for(auto p : e) { f.push_back(p.first); s.push_back(p.second - p.first); } return vo::make_extensions<D>(f, s); }
-static idx count(Ext const& e) { idx n = 1; for(auto p : e) { n *= (p.second - p.first); } return n; }
-static int code(idx const* t) { int c = 0, m = 1; for(int j = 0; j < D; ++j) { c += static_cast<int>(t[j] + 3)*m; m *= 11; } return c + 100000; }
-template<class F> void for_tuples(Ext const& e, F&& f) {
-	if(count(e) == 0) { return; }
-	idx t[4] = {0, 0, 0, 0}; for(int j = 0; j < D; ++j) { t[j] = e[static_cast<std::size_t>(j)].first; }
-	for(;;) {
-		f(static_cast<idx const*>(t));
-		int j = D - 1; for(; j >= 0; --j) { auto u = static_cast<std::size_t>(j); if(++t[j] < e[u].second) { break; } t[j] = e[u].first; }
-		if(j < 0) { return; }
-	}
-}
-static bool inside(Ext const& e, idx const* t) { if(count(e) == 0) { return false; } for(int j = 0; j < D; ++j) { auto u = static_cast<std::size_t>(j); if(t[j] < e[u].first || t[j] >= e[u].second) { return false; } } return true; }
-template<class A> decltype(auto) at(A&& a, idx const* t) { if constexpr(std::decay_t<A>::rank_v == 1) { return a[t[0]]; } else { return at(a[t[0]], t + 1); } }
+#include "../engine/ext_grid.hpp"
 
 enum Form { F_LVALUE, F_FILL, F_RVALUE, NFORMS };
 static char const* const fname[] = {"a.reextent(x)", "a.reextent(x,fill)", "std::move(a).reextent(x)"};
 constexpr int FILL = -7;
 constexpr int UNSPEC = -123456;   // model value of an element whose value the property leaves unspecified
 
+// aggregate with an IMPLICIT non-trivial default constructor (string member) and a scalar member without initialiser: value-initialisation zeroes v, default-initialisation leaves it indeterminate
+struct R { std::string tag; int v; };
+inline int val(R const& r) { return r.v; }
+using instr::val;
+template<class T> T make(int x) { if constexpr(std::is_same_v<T, R>) { return R{"r", x}; } else { return T(x); } }
 template<class T> struct TypeInfo;
+template<> struct TypeInfo<R> { static constexpr char const* name = "aggregate{string,int}"; static constexpr bool value_init = true; using alloc = instr::LA<R>; };
 template<> struct TypeInfo<int> { static constexpr char const* name = "int"; static constexpr bool value_init = false; using alloc = std::allocator<int>; };
 template<> struct TypeInfo<instr::Q> { static constexpr char const* name = "Q"; static constexpr bool value_init = true; using alloc = std::allocator<instr::Q>; };
 template<> struct TypeInfo<instr::E> { static constexpr char const* name = "tracked"; static constexpr bool value_init = true; using alloc = instr::LA<instr::E>; };
@@ -80,7 +55,8 @@ static Outcome run_chain(std::vector<Ext> const& chain, std::vector<int> const& 
 	auto fail = [&](std::string o, std::string d) { if(out.ok) { out.ok = false; out.oracle = std::move(o); out.detail = std::move(d); } };
 	{
 		Arr a(X(chain[0]));
-		for_tuples(chain[0], [&](idx const* t) { at(a, t) = T(code(t)); });
+		if constexpr(TypeInfo<T>::value_init) { for_tuples(chain[0], [&](idx const* t) { if(val(static_cast<T const&>(at(a, t))) != 0) { fail("constructor(extents)-element-not-value-initialised", ""); } }); }
+		for_tuples(chain[0], [&](idx const* t) { at(a, t) = make<T>(code(t)); });
 		Model m = model_fresh(chain[0]);
 		for(std::size_t s = 1; s < chain.size() && out.ok; ++s) {
 			int form = forms[s - 1];
@@ -88,7 +64,7 @@ static Outcome run_chain(std::vector<Ext> const& chain, std::vector<int> const& 
 			auto* before = rawp(a.data_elements()); long al = W.nalloc, dl = W.ndealloc;
 			switch(form) {
 				case F_LVALUE: a.reextent(X(chain[s])); break;
-				case F_FILL: a.reextent(X(chain[s]), T(FILL)); break;
+				case F_FILL: a.reextent(X(chain[s]), make<T>(FILL)); break;
 				default: { auto&& r = std::move(a).reextent(X(chain[s])); if(&r != &a) { fail("rvalue-reextent-returns-other-object", ""); } break; }
 			}
 			m = model_reextent(m, chain[s], form, TypeInfo<T>::value_init);
@@ -102,7 +78,7 @@ static Outcome run_chain(std::vector<Ext> const& chain, std::vector<int> const& 
 			for_tuples(chain[s], [&](idx const* t) {
 				if(!out.ok) { return; }
 				int want = model_get(m, t); if(want == UNSPEC) { return; }
-				int got = instr::val(static_cast<T const&>(at(a, t)));
+				int got = val(static_cast<T const&>(at(a, t)));
 				if(got != want) {
 					std::string ts; for(int j = 0; j < D; ++j) { ts += (j ? "," : "") + std::to_string(t[j]); }
 					bool common = want >= 100000;
@@ -162,7 +138,7 @@ int main(int argc, char** argv) {
 		if(f.size() < 4) { std::printf("REPLAY cannot parse\n"); return 2; }
 		std::vector<Ext> chain; for(std::size_t i = 1; i + 1 < f.size(); ++i) { chain.push_back(parse_ext(f[i])); }
 		std::vector<int> forms; for(char c : f.back()) { forms.push_back(c - '0'); }
-		auto outs = isolated(1, [&](int) { return f[0] == "int" ? run_chain<int>(chain, forms) : f[0] == "Q" ? run_chain<instr::Q>(chain, forms) : run_chain<instr::E>(chain, forms); });
+		auto outs = isolated(1, [&](int) { return f[0] == "int" ? run_chain<int>(chain, forms) : f[0] == "Q" ? run_chain<instr::Q>(chain, forms) : f[0] == "tracked" ? run_chain<instr::E>(chain, forms) : run_chain<R>(chain, forms); });
 		std::printf("REPLAY %s %s %s\n", outs[0].ok ? "OK" : "VIOLATION", outs[0].oracle.c_str(), outs[0].detail.c_str()); return outs[0].ok ? 0 : 1;
 	}
 	auto exts = all_exts(thorough);
@@ -170,8 +146,9 @@ int main(int argc, char** argv) {
 	grid<int>(exts, chains, shard, nshards);
 	grid<instr::Q>(exts, false, shard, nshards);
 	grid<instr::E>(exts, chains && D == 1, shard, nshards);
+	grid<R>(exts, false, shard, nshards);
 	mc::R.add("evaluations", g_evals); mc::R.add("transitions", g_evals); mc::R.add("states", static_cast<long long>(exts.size())); mc::R.add("distinct_nontrivial", g_nonempty_common);
-	mc::R.note("reextmc D=" + std::to_string(D) + ": " + std::to_string(exts.size()) + " index extensions (per-dimension menu of " + std::to_string(menu1(thorough).size()) + "), every ordered pair x 3 forms x 3 element types" + (chains ? " + every chain of two reextents" : "") + "; " + std::to_string(g_nonempty_common) + " evaluations with a non-empty common part");
+	mc::R.note("reextmc D=" + std::to_string(D) + ": " + std::to_string(exts.size()) + " index extensions (per-dimension menu of " + std::to_string(menu1(thorough).size()) + "), every ordered pair x 3 forms x 4 element types" + (chains ? " + every chain of two reextents" : "") + "; " + std::to_string(g_nonempty_common) + " evaluations with a non-empty common part");
 	mc::R.emit(stdout);
 	return 0;
 }
